@@ -2,3 +2,4 @@
 import ExprModel.Props.C14
 import ExprModel.Props.C09
 import ExprModel.Props.C08
+import ExprModel.Props.C04
